@@ -167,10 +167,11 @@ theorem sd_readEnv : ∀ name args pos skip mode ts e rest,
       unfold runOK at hrun
       rw [if_neg (by decide), if_pos (by decide)] at hrun
       simp only [Bool.and_eq_true, List.isEmpty_iff, decide_eq_true_eq] at hrun
-      obtain ⟨⟨⟨⟨e3, e4⟩, hl1⟩, hl2⟩, _⟩ := hrun
-      subst e3 e4
+      obtain ⟨⟨⟨⟨⟨e4, _⟩, _⟩, hl1⟩, hl2⟩, _⟩ := hrun
+      subst e4
       have e1 : a1 = [] := List.eq_nil_of_length_eq_zero (by omega)
-      subst e1
+      have e3 : a3 = [] := List.eq_nil_of_length_eq_zero (by omega)
+      subst e1 e3
       cases a2 with
       | nil => simp at hl2
       | cons x xs =>
